@@ -378,6 +378,28 @@ def lattice(kind, nx, ny, a=1.0):
                 cy = j * 2 * h + (h if i % 2 else 0.0)
                 cells[cid] = [jn(cx + a * np.cos(np.pi / 3 * k), cy + a * np.sin(np.pi / 3 * k)) for k in range(6)]
                 cid += 1
+    elif kind == "tri":
+        # triangular lattice: interior vertices are six-fold junctions
+        h = np.sqrt(3) / 2 * a
+        for j in range(ny):
+            for i in range(nx):
+                x0 = (i + 0.5 * j) * a
+                p00, p10 = (x0, j * h), (x0 + a, j * h)
+                p01, p11 = (x0 + 0.5 * a, (j + 1) * h), (x0 + 1.5 * a, (j + 1) * h)
+                cells[cid] = [jn(*p00), jn(*p10), jn(*p01)]
+                cid += 1
+                cells[cid] = [jn(*p10), jn(*p11), jn(*p01)]
+                cid += 1
+    elif kind == "fan":
+        # nx + 3 sectors around one junction (a five- to ten-fold junction), with slightly unequal opening angles
+        n = nx + 3
+        ang = np.cumsum(1.0 + 0.3 * np.sin(1.7 * np.arange(n) + ny))
+        ang = ang / ang[-1] * 2 * np.pi
+        rim = [(a * np.cos(t), a * np.sin(t)) for t in ang]
+        c0 = jn(0.0, 0.0)
+        for i in range(n):
+            cells[cid] = [c0, jn(*rim[i]), jn(*rim[(i + 1) % n])]
+            cid += 1
     else:
         raise ValueError(kind)
     E = {}
